@@ -486,6 +486,28 @@ fn main() {
     });
   }
 
+  // ---------------------------------------------------------------- (3b) raw string contents
+  {
+    // The emitter pastes the samlang string between backticks. The eraser must pass whatever is
+    // there through verbatim, so that node shows what the emitted TypeScript really does.
+    let src = "class Main {\n  function main(): unit = {\n    let _ = Process.println(\"${1+1} as unknown as number\");\n    Process.println(\"a\\nb: number\")\n  }\n}\n";
+    match compile_js(src) {
+      Ok(js) => {
+        let t = tsrun::run_one(&js, &limits, 5000);
+        println!("      samlang \"${{1+1}} ...\" and \"a\\nb: number\" print as {:?} / {:?}", t.lines, t.ending);
+        c.check(
+          "template substitution / escapes inside a samlang string reach node verbatim",
+          t.ending == Ending::Return
+            && t.lines == vec!["2 as unknown as number".to_string(), "a".into(), "b: number".into()],
+          || short(&t),
+        );
+      }
+      Err(e) => c.check("template substitution inside a samlang string", false, || e),
+    }
+    let none = tsrun::run_batch(&[], &limits, 100);
+    c.check("empty batch", none.is_empty(), || format!("{} traces", none.len()));
+  }
+
   // ---------------------------------------------------------------- measurements
   {
     let mut best = std::time::Duration::MAX;
